@@ -9,7 +9,7 @@ SPEC = {
              "SeriesCardinality, SearchTagValues, and condition-free listings. Oracle: model map series->id (unique, stable, never shared) and brute "
              "force over the model with Go regexp unanchored matching, absent tag = ''. history campaigns: a case is non-trivial when a known series "
              "is written again after a cache clear or a reopen; predicate campaigns (ladder eq -> +!= -> +literal/anchored regex -> full regex): when a "
-             "search mixes >= 2 operators or uses a regex that is neither literal nor anchored literal, over >= 5 series of the measurement, at least "
+             "search mixes >= 2 operators (of = != =~ !~ AND OR) or uses a regex that is neither literal nor anchored literal, over >= 5 series of the measurement, at least "
              "one lacking a referenced tag; distinct = hash of the whole operation list"),
     "assumptions": [
         "series reach the index as the write path builds them: non-empty tag keys/values, tags sorted and unique, measurement name with version suffix",
@@ -18,12 +18,12 @@ SPEC = {
         "ids are compared only for equality/uniqueness; concurrent creation of one key from two writers is not exercised",
     ],
     "campaigns": [
-        {"name": "history", "run": "^TestHistory$", "quick": B(250, 3), "thorough": B(6000, 3, 3000)},
-        {"name": "history_bloom", "run": "^TestHistoryBloom$", "quick": B(12, 1), "thorough": B(400, 1, 3000)},
-        {"name": "pred_eq", "run": "^TestPredEq$", "quick": B(250, 2), "thorough": B(6000, 2, 3000)},
-        {"name": "pred_neq", "run": "^TestPredNeq$", "quick": B(250, 2), "thorough": B(6000, 2, 3000)},
-        {"name": "pred_regex_literal", "run": "^TestPredRegexLit$", "quick": B(250, 3), "thorough": B(6000, 3, 3000)},
-        {"name": "pred_regex_full", "run": "^TestPredRegexFull$", "quick": B(150, 4), "thorough": B(3500, 4, 3000)},
+        {"name": "history", "run": "^TestHistory$", "quick": B(250, 3), "thorough": B(4000, 3, 5400)},
+        {"name": "history_bloom", "run": "^TestHistoryBloom$", "quick": B(12, 1), "thorough": B(250, 1, 5400)},
+        {"name": "pred_eq", "run": "^TestPredEq$", "quick": B(250, 2), "thorough": B(4000, 2, 5400)},
+        {"name": "pred_neq", "run": "^TestPredNeq$", "quick": B(250, 2), "thorough": B(4000, 2, 5400)},
+        {"name": "pred_regex_literal", "run": "^TestPredRegexLit$", "quick": B(250, 3), "thorough": B(4000, 3, 5400)},
+        {"name": "pred_regex_full", "run": "^TestPredRegexFull$", "quick": B(150, 4), "thorough": B(2200, 4, 5400)},
     ],
 }
 
